@@ -5,6 +5,8 @@ package dmap
 import (
 	"context"
 
+	"github.com/olric-data/olric/internal/cluster/routingtable"
+
 	"github.com/olric-data/olric/internal/cluster/partitions"
 	"github.com/redis/go-redis/v9"
 )
@@ -90,3 +92,6 @@ func (v *VerifCluster) BackupOwners(p uint64) []string {
 	}
 	return out
 }
+
+// RT returns member i's routing table (for the embedded client's "is this owner me" test).
+func (v *VerifCluster) RT(i int) *routingtable.RoutingTable { return v.cl.members[i].svc.rt }
